@@ -51,11 +51,15 @@ pub struct St {
     next_id: u32,
 }
 
-fn names(n: usize) -> Vec<String> {
+pub fn initial() -> St {
+    St { list: ItemList::new(), model: vec![], next_id: 0 }
+}
+
+pub fn names(n: usize) -> Vec<String> {
     ["a", "b", "c", "d", "e", "f", "g"][..n].iter().map(|s| s.to_string()).collect()
 }
 
-fn actions(st: &St, alphabet: &[String]) -> Vec<Op> {
+pub fn actions(st: &St, alphabet: &[String]) -> Vec<Op> {
     let len = st.model.len();
     let present: Vec<&String> = st.model.iter().map(|m| &m.0).collect();
     let absent: Vec<&String> = alphabet.iter().filter(|n| !present.contains(n)).collect();
@@ -103,7 +107,7 @@ fn actions(st: &St, alphabet: &[String]) -> Vec<Op> {
 }
 
 /// apply `op` to the real list and to the model; compare the return values
-fn step(st: &St, op: &Op) -> Result<St, String> {
+pub fn step(st: &St, op: &Op) -> Result<St, String> {
     let mut ns = st.clone();
     let r = guard(|| -> Result<(), String> {
         match op {
@@ -234,7 +238,7 @@ fn step(st: &St, op: &Op) -> Result<St, String> {
     }
 }
 
-fn invariant(st: &St, alphabet: &[String]) -> Result<(), String> {
+pub fn invariant(st: &St, alphabet: &[String]) -> Result<(), String> {
     let l = &st.list;
     let m = &st.model;
     guard(|| -> Result<(), String> {
@@ -303,7 +307,7 @@ fn invariant(st: &St, alphabet: &[String]) -> Result<(), String> {
     .unwrap_or_else(|p| Err(format!("panic in lookup: {p}")))
 }
 
-fn canon(st: &St) -> String {
+pub fn canon(st: &St) -> String {
     let mut s = String::new();
     for it in st.list.iter() {
         s.push_str(&it.name);
